@@ -214,6 +214,16 @@ func nlDecorationNeighbour(c *ixCtx, bo *ssa.BinOp, key string) bool {
 func nlDecorationLen(c *ixCtx, bo *ssa.BinOp, key string) int {
 	isDecorationTest := func(b *ssa.BasicBlock) int {
 		for _, ins := range b.Instrs {
+			// strings.HasPrefix / HasSuffix(text, "…") tests a decoration of that length
+			if call, ok := ins.(*ssa.Call); ok {
+				if cal := call.Call.StaticCallee(); cal != nil && cal.Pkg != nil && cal.Pkg.Pkg.Path() == "strings" && (cal.Name() == "HasPrefix" || cal.Name() == "HasSuffix") && len(call.Call.Args) == 2 {
+					if kc, ok := call.Call.Args[1].(*ssa.Const); ok && c.exprKey(call.Call.Args[0], nil, 0) == key {
+						if cv := constVal(kc); cv.k == kStr && len(cv.s) > 0 {
+							return len(cv.s)
+						}
+					}
+				}
+			}
 			cmp, ok := ins.(*ssa.BinOp)
 			if !ok || (cmp.Op != token.EQL && cmp.Op != token.NEQ) {
 				continue
